@@ -25,3 +25,12 @@ func VerifGradState(t Tensor) (tracked, bpdirty bool, gradient Tensor, targets [
 func VerifSetHandler(h func(site string)) {
 	verifhook.Handler = h
 }
+
+// VerifScalarFields renders the scalar bookkeeping fields of a tensor and of
+// its gradient context (read-only, through reflection).
+func VerifScalarFields(t Tensor) string {
+	if t == nil {
+		return ""
+	}
+	return "tensor{" + cputensor.VerifScalarFields(t) + "} gctx{" + gradtrack.VerifScalarFields(t.GradContext()) + "}"
+}
